@@ -80,8 +80,10 @@ type Placement struct {
 // Agent behaviours on the challenge.
 var agentBehaviours = []string{"honest", "otherkey", "otherdata", "replay", "emptysig", "garbagesig", "fail", "close", "wrongformat"}
 
-var oddNames = []string{"alice", "bob", "we\"ird", "üser-ñ", "a b", "x{y}", "back\\slash", "tab\tname", "carol.smith", "root", "日本"}
-var oddHosts = []string{"host.example.com", "h\"q", "ホスト", "a b c", "{\"x\":1}", "laptop-01", "x,y", "null"}
+var oddNames = []string{"alice", "bob", "we\"ird", "üser-ñ", "a b", "x{y}", "back\\slash", "tab\tname", "carol.smith", "root", "日本",
+	"lit\\u003cesc", "a<b>&c", "amp\\u0026x", "nl\\nname", "sep\u2028x", "per%cent%s", "x\\\\y", "q'uote"}
+var oddHosts = []string{"host.example.com", "h\"q", "ホスト", "a b c", "{\"x\":1}", "laptop-01", "x,y", "null",
+	"h\\u003e.example", "<host>&co", "a\\u0026b", "bs\\", "\\\"", "ctl\x01x", "tab\there", "h\\u0000x", "%s%d"}
 var oddIPs = []string{"1.2.3.4", "10.0.0.254", "::1", "2001:db8::17", "192.168.223.229", "fe80::1"}
 var algoSpellings = map[int][]string{
 	0: {"default", "Default", "DEFAULT", "unknown", "0"},
